@@ -241,6 +241,7 @@ class Run:
         self.init_state = self.compiler.last[1]
         self.init_vals = dict(self.compiler.init_vals)
         self.stoch_objs = list(self.compiler.sids.objs)
+        self.out.append("G " + " ".join(canon.b01(x) for x in guards(self.instance, self.init_state)))
         self.out.append(f"L {env.lower_bound} {env.max_allowed_time}")
         self._emit_micro(micro)
         self.out += res_lines(env.state)
@@ -358,7 +359,7 @@ class Run:
         r, err = self._guard(lambda: env.reset())
         _REC.take()
         if err is not None:
-            self.c14_findings.append({"sig": "reset-raised", "detail": err_name(err), "step": None})
+            self.c14_findings.append({"sig": "reset-raised:" + err_name(err), "detail": err_name(err), "step": None})
             return
         if env.history != () or env.terminated or env.truncated or env.done:
             self.c14_findings.append({"sig": "reset-did-not-clear", "detail": f"history {len(env.history)} flags {env.terminated},{env.truncated},{env.done}", "step": None})
@@ -466,6 +467,34 @@ class Run:
     def end(self):
         self.cmds.append("END")
         self.out.append("E")
+
+
+def guards(inst, st):
+    """the decidable hypotheses of the structural theorems (wfB, shapeB, conservedB, capB of
+    JSL/Model/Check.lean), evaluated independently on the real objects"""
+    def nodup(l):
+        return len(set(l)) == len(l)
+    cfg_bufs = list(inst.buffers) + [b for m in inst.machines for b in (m.prebuffer, m.buffer, m.postbuffer)] + \
+        [t.buffer for t in inst.transports]
+    st_bufs = list(st.buffers) + [b for m in st.machines for b in (m.prebuffer, m.buffer, m.postbuffer)] + \
+        [t.buffer for t in st.transports]
+    mids = [m.id for m in inst.machines]
+    wf = (nodup([j.id for j in inst.instance.specification]) and nodup(mids) and nodup([t.id for t in inst.transports])
+          and nodup([b.id for b in cfg_bufs])
+          and all(all(o.id.split("-")[1] == j.id.split("-")[1] for o in j.operations)
+                  and nodup([o.id.split("-")[2] for o in j.operations])
+                  and all(o.machine in mids for o in j.operations) for j in inst.instance.specification))
+    shape = ([(j.id, [(o.id, o.machine_id) for o in j.operations]) for j in st.jobs]
+             == [(j.id, [(o.id, o.machine) for o in j.operations]) for j in inst.instance.specification]
+             and [(m.id, m.prebuffer.id, m.buffer.id, m.postbuffer.id) for m in st.machines]
+             == [(m.id, m.prebuffer.id, m.buffer.id, m.postbuffer.id) for m in inst.machines]
+             and [(t.id, t.buffer.id) for t in st.transports] == [(t.id, t.buffer.id) for t in inst.transports]
+             and [b.id for b in st.buffers] == [b.id for b in inst.buffers])
+    cons = (all(nodup(b.store) and all(any(j.id == x and j.location == b.id for j in st.jobs) for x in b.store)
+                for b in st_bufs)
+            and all(any(b.id == j.location and j.id in b.store for b in st_bufs) for j in st.jobs))
+    cap = all(c.id != b.id or len(b.store) <= c.capacity for b in st_bufs for c in cfg_bufs)
+    return wf, shape, cons, cap
 
 
 def conflict_free(offers, rnd, p=0.7):
